@@ -19,9 +19,10 @@ and the documented formulas transcribed in Spec/Muscle.lean.
   `muscleBias_at_lmax`, `muscleBias_differs_from_doc`, `muscleGainLength_differs_from_FLVm`: where they do NOT agree —
   the passive force at lmax is 1.5·fpmax·F0 in the code, fpmax·F0 in the documentation (XMLreference, FLV.m), and
   FLV.m's second bump (×0.15) is absent from the code.
-* `disabled_group_zero_force`: an actuator in a disabled group produces zero force provided its forcerange (if
-  limited) contains 0; `disabled_group_force_when_range_excludes_zero`: otherwise the forcerange clamp, which the
-  code applies to disabled actuators too, moves the force to the nearest bound (a finding, reproduced on the engine).
+* `disabled_group_zero_force`: an actuator in a disabled group produces zero force through every later stage, for
+  EVERY forcerange (the "clamp actuator_force" loop skips disabled actuators; before the fix ea3125434 of /repo it did
+  not, and a forcerange excluding 0 gave the nearest bound — regression input kept in checks/c27.py);
+  `clampStage_enabled`: for an enabled actuator that stage is the plain forcerange clamp.
 * `qfrc_actuator_eq_momentT_force`: the sparse transpose product as coded equals the dense moment' · force.
 -/
 import MjProof.Model.Actuation
@@ -120,6 +121,12 @@ theorem force_in_forcerange (f lo hi : ℝ) (h : lo ≤ hi) :
     lo ≤ clampForce true f lo hi ∧ clampForce true f lo hi ≤ hi := by
   simp only [clampForce, clampEntry, if_true]; exact clip_mem f lo hi h
 
+/-- the same through the clamp stage, for an actuator whose group is not disabled -/
+theorem force_in_forcerange_enabled (group : Int) (dis : Nat) (f lo hi : ℝ) (h : lo ≤ hi)
+    (he : actuatorDisabled group dis = false) :
+    lo ≤ clampStage true group dis f lo hi ∧ clampStage true group dis f lo hi ≤ hi := by
+  simp only [clampStage, he]; exact force_in_forcerange f lo hi h
+
 /-- the force is not touched when it is inside the range, nor when the actuator is not force-limited -/
 theorem force_clamp_noop (f lo hi : ℝ) (l : Bool) (h : l = false ∨ (lo ≤ f ∧ f ≤ hi)) : clampForce l f lo hi = f := by
   rcases h with rfl | ⟨h1, h2⟩
@@ -205,22 +212,24 @@ theorem actuatorDisabled_iff (group : Int) (dis : Nat) :
     · intro ht; exact ⟨by omega, by omega, ht⟩
     · rintro ⟨_, _, ht⟩; exact ht
 
-/-- an actuator in a disabled group: zero force through every later stage, provided that its forcerange (when
-    force-limited) contains 0 -/
+/-- an actuator in a disabled group: zero force through every later stage, whatever its forcerange -/
 theorem disabled_group_zero_force (a : Act ℝ) (input : ℝ) (group : Int) (dis : Nat) (t tlo thi flo fhi : ℝ)
-    (lim : Bool) (hd : actuatorDisabled group dis = true) (hr : lim = false ∨ (flo ≤ 0 ∧ 0 ≤ fhi)) :
+    (lim : Bool) (hd : actuatorDisabled group dis = true) :
     ∃ f, unclampedForce a input group dis = some f ∧ f = 0 ∧
-      clampForce lim (tendonScale t tlo thi f) flo fhi = 0 := by
+      clampStage lim group dis (tendonScale t tlo thi f) flo fhi = 0 := by
   refine ⟨0, by simp [unclampedForce, hd, real_zero], rfl, ?_⟩
   have h0 : tendonScale t tlo thi 0 = 0 := by rw [tendonScale_eq]; split_ifs <;> simp
   rw [h0]
-  exact force_clamp_noop 0 flo fhi lim hr
+  simp [clampStage, hd]
 
-/-- FINDING: the forcerange clamp is applied to disabled actuators as well; when the range excludes 0 the
-    "disabled" actuator outputs the nearest bound -/
-theorem disabled_group_force_when_range_excludes_zero :
-    clampForce true (tendonScale 0 0 0 (0 : ℝ)) 1 2 = 1 := by
-  rw [tendonScale_eq]; simp [clampForce, clampEntry, clip_eq]
+/-- for an enabled actuator the clamp stage is the forcerange clamp -/
+theorem clampStage_enabled (lim : Bool) (group : Int) (dis : Nat) (f lo hi : ℝ)
+    (he : actuatorDisabled group dis = false) : clampStage lim group dis f lo hi = clampForce lim f lo hi := by
+  simp [clampStage, he]
+
+/-- the regression input: group 0 disabled, forcerange [1, 2] — zero force -/
+example : clampStage true 0 1 (tendonScale 0 0 0 (0 : ℝ)) 1 2 = 0 := by
+  rw [tendonScale_eq]; simp [clampStage]; decide
 
 example : actuatorDisabled 2 0b100 = true := by decide
 example : actuatorDisabled 31 0xFFFFFFFF = false := by decide
